@@ -1,8 +1,254 @@
-import Model.BitSet
+import Lemmas.BitSetHist
+import Lemmas.BitSetSearch
+/-! # C08 — BitSet is observationally a finite set of non-negative integers
+
+Property theorems only.  The executable model is `Model/BitSet.lean` (`BS.*`, run against `xmath.BitSet` on every
+check through `BS.applyOp` and the query functions); helper lemmas are in `Lemmas/BitSet*.lean`.
+
+* abstraction: `BS.mem b i` — index `i` is a member of the set the words of `b` denote (absent words are empty);
+* specification: a pair of predicates `Nat → Bool` (`BS.NSet`) subjected to the same calls (`BS.specOp`);
+* `BS.Inv b` — the cached count `b.set` equals the number of one bits of the storage (`BS.card`), which is the number
+  of members (`count_is_cardinality`).
+
+Everything that speaks about *membership* is proved outright.  Everything that speaks about `Count` after a range
+operation goes through the whole-word fast path, which calls the repository's SWAR routine `countSetBits`; that this
+routine is the population count (`BS.SwarPopcount`) is NOT proved here (the tactic that would do it is not allowed) —
+it is an explicit, named hypothesis of the `_partial` theorems below, checked by the kernel on all 256 byte patterns
+(`swar_bytes_partial`) and compared with the real `countSetBits` on every run (area `popcnt`). -/
 namespace C08
 open BS
 
-/-- the constants of the source are the ones the proofs are about -/
+/-- the constants the proofs are about are the constants of the source (regenerated on every run) -/
 theorem consts : abpw = 6 ∧ dbpw = 64 ∧ bim = 63 := by decide
+
+/-- `bitIndexForMask(wordMask(x)) = x & 63`: the `atexit.Exit(1)` branch of `bitIndexForMask` is unreachable -/
+theorem bitIndexForMask_total (x : Nat) : bitIndexForMask (wordMask x) = x % 64 := bitIndexForMask_wordMask x
+
+/-! ## State, Count -/
+
+/-- **State(i)** is true exactly for the members -/
+theorem state_spec (b : T) (i : Nat) : state b i = mem b i := state_eq_mem b i
+
+/-- members lie below the capacity: the set is finite -/
+theorem mem_finite (b : T) (x : Nat) (h : mem b x = true) : x < b.data.length * 64 := bit_lt _ _ h
+
+/-- **Count** is the cardinality: under the invariant, the number of members below any bound covering the set -/
+theorem count_is_cardinality (b : T) (hinv : Inv b) (N : Nat) (hN : ∀ x, mem b x = true → x < N) :
+    count b = Int.ofNat ((List.range N).filter (mem b)).length := count_eq_members b hinv N hN
+
+/-! ## single-index mutators (no assumption) -/
+
+/-- **Set** -/
+theorem set_spec (b : T) (i : Nat) :
+    (∀ x, mem (setBit b i) x = (mem b x || decide (x = i))) ∧ (Inv b → Inv (setBit b i)) :=
+  ⟨setBit_mem b i, setBit_inv b i⟩
+
+/-- **Clear** (also beyond the capacity) -/
+theorem clear_spec (b : T) (i : Nat) :
+    (∀ x, mem (clearBit b i) x = (mem b x && !decide (x = i))) ∧ (Inv b → Inv (clearBit b i)) :=
+  ⟨clearBit_mem b i, clearBit_inv b i⟩
+
+/-- **Flip** -/
+theorem flip_spec (b : T) (i : Nat) :
+    (∀ x, mem (flipBit b i) x = (mem b x ^^ decide (x = i))) ∧ (Inv b → Inv (flipBit b i)) :=
+  ⟨flipBit_mem b i, flipBit_inv b i⟩
+
+/-! ## range mutators: reversed ranges, ranges inside a word, across words, beyond the capacity -/
+
+/-- **SetRange**: members afterwards = members before ∪ [min, max] (no assumption) -/
+theorem setRange_mem_spec (b : T) (s e x : Nat) :
+    mem (setRange b s e) x = (mem b x || decide (min s e ≤ x ∧ x ≤ max s e)) := setRange_mem b s e x
+
+/-- **ClearRange**: members afterwards = members before \ [min, max], also past the capacity (no assumption) -/
+theorem clearRange_mem_spec (b : T) (s e x : Nat) :
+    mem (clearRange b s e) x = (mem b x && !decide (min s e ≤ x ∧ x ≤ max s e)) := clearRange_mem b s e x
+
+/-- **FlipRange**: members afterwards = members before Δ [min, max] (no assumption) -/
+theorem flipRange_mem_spec (b : T) (s e x : Nat) :
+    mem (flipRange b s e) x = (mem b x ^^ decide (min s e ≤ x ∧ x ≤ max s e)) := flipRange_mem b s e x
+
+/-- full statement: the range operations keep `Count` equal to the cardinality -/
+def range_count_Statement : Prop :=
+  ∀ (b : T) (s e : Nat), Inv b → Inv (setRange b s e) ∧ Inv (clearRange b s e) ∧ Inv (flipRange b s e)
+
+/-- the range operations keep `Count` equal to the cardinality, GIVEN that `countSetBits` is the population count
+    (used by the whole-word fast path only) -/
+theorem range_count_partial (hsw : SwarPopcount) : range_count_Statement :=
+  fun b s e h => ⟨(setRange_spec hsw b s e).2 h, (clearRange_spec hsw b s e).2 h, (flipRange_spec hsw b s e).2 h⟩
+
+/-- the hypothesis itself: the SWAR routine of the source equals the population count on every word -/
+def countSetBits_eq_popcount_Statement : Prop := SwarPopcount
+
+set_option maxRecDepth 200000 in
+/-- kernel-checked part of it: every byte pattern, replicated into all eight byte lanes -/
+theorem swar_bytes_partial : ∀ n, n < 256 →
+    countSetBits (BitVec.ofNat 64 (n * 0x0101010101010101))
+      = Int.ofNat (popcount (BitVec.ofNat 64 (n * 0x0101010101010101))) := by decide
+
+/-- independent of the hypothesis: the per-bit loops (first and last word of every range) keep the count exact — the
+    change of `set` is the change of the word's population count -/
+theorem bitLoop_count (w : W) (s : Int) (j n : Nat) (h : j + n ≤ 64) :
+    (bitLoop bitSet w s j n).2 = s + popcount (bitLoop bitSet w s j n).1 - popcount w
+    ∧ (bitLoop bitClear w s j n).2 = s + popcount (bitLoop bitClear w s j n).1 - popcount w
+    ∧ (bitLoop bitFlip w s j n).2 = s + popcount (bitLoop bitFlip w s j n).1 - popcount w :=
+  ⟨(bitLoop_spec bitSet_spec n w s j h).2, (bitLoop_spec bitClear_spec n w s j h).2,
+   (bitLoop_spec bitFlip_spec n w s j h).2⟩
+
+/-! ## histories -/
+
+/-- **after any sequence of calls** on two bit sets (Set, Clear, Flip, the three range forms, Load, Copy, Clone, Trim,
+    EnsureCapacity, Reset, Data, Load(Data())) the members of each are exactly those of a mathematical set subjected
+    to the same operations (no assumption) -/
+theorem run_refines (ops : List Op) (r : Reg) (x : Nat) : mem ((run ops).get r) x = (specRun ops).get r x :=
+  run_mem ops r x
+
+/-- full statement: `Count` equals the cardinality after every history -/
+def count_card_Statement : Prop := ∀ (ops : List Op) (r : Reg), Inv ((run ops).get r)
+
+/-- `Count` equals the cardinality after every history, GIVEN `SwarPopcount` -/
+theorem count_card_partial (hsw : SwarPopcount) : count_card_Statement :=
+  fun ops r => (run_rel hsw ops r).1
+
+/-- one step of any history keeps the invariant and the agreement with the specification, GIVEN `SwarPopcount` -/
+theorem step_partial (hsw : SwarPopcount) (p : Pair) (sp : SPair) (h : Rel p sp) (op : Op) :
+    Rel (applyOp p op) (specOp sp op) := step_refines hsw p sp h op
+
+/-- `Count` after a history in which the whole-word fast path is not needed for the count — histories without range
+    operations — is the cardinality with no assumption at all -/
+theorem count_card_norange (ops : List Op)
+    (hno : ∀ op ∈ ops, match op with | .setRange .. | .clearRange .. | .flipRange .. => False | _ => True)
+    (r : Reg) : Inv ((run ops).get r) := by
+  have key : ∀ (l : List Op), (∀ op ∈ l, match op with | .setRange .. | .clearRange .. | .flipRange .. => False | _ => True) →
+      ∀ p : Pair, (∀ r, Inv (p.get r)) → ∀ r, Inv ((l.foldl applyOp p).get r) := by
+    intro l
+    induction l with
+    | nil => intro _ p hp; exact hp
+    | cons op l ih =>
+      intro hl p hp
+      apply ih (fun o ho => hl o (List.mem_cons_of_mem _ ho))
+      have hop := hl op (List.mem_cons_self ..)
+      intro r'
+      cases op with
+      | setRange _ _ _ => exact absurd hop id
+      | clearRange _ _ _ => exact absurd hop id
+      | flipRange _ _ _ => exact absurd hop id
+      | set q i => show Inv ((p.put q _).get r'); rw [get_put]; split; exact setBit_inv _ _ (hp q); exact hp r'
+      | clear q i => show Inv ((p.put q _).get r'); rw [get_put]; split; exact clearBit_inv _ _ (hp q); exact hp r'
+      | flip q i => show Inv ((p.put q _).get r'); rw [get_put]; split; exact flipBit_inv _ _ (hp q); exact hp r'
+      | load q ws => show Inv ((p.put q _).get r'); rw [get_put]; split; exact load_inv _ _; exact hp r'
+      | copy q q' => show Inv ((p.put q _).get r'); rw [get_put]; split; exact hp q'; exact hp r'
+      | clone q q' => show Inv ((p.put q _).get r'); rw [get_put]; split; exact hp q'; exact hp r'
+      | trim q => show Inv ((p.put q _).get r'); rw [get_put]; split; exact trim_inv _ (hp q); exact hp r'
+      | ensure q n => show Inv ((p.put q _).get r'); rw [get_put]; split; exact ensure_inv _ _ (hp q); exact hp r'
+      | reset q => show Inv ((p.put q _).get r'); rw [get_put]; split; exact reset_inv _; exact hp r'
+      | data q => show Inv ((p.put q (trim (p.get q))).get r'); rw [get_put]; split; exact trim_inv _ (hp q); exact hp r'
+      | loadData q q' =>
+        show Inv (((p.put q' (trim (p.get q'))).put q _).get r')
+        rw [get_put]; split
+        · exact load_inv _ _
+        · rw [get_put]; split; exact trim_inv _ (hp q'); exact hp r'
+  exact key ops hno {} (fun r => by cases r <;> rfl) r
+
+/-! ## the six searches: the extreme matching index or the documented sentinel -/
+
+/-- **NextSet** -/
+theorem nextSet_spec (b : T) (s : Nat) :
+    (nextSet b s = -1 ∧ ∀ x, s ≤ x → mem b x = false)
+    ∨ ∃ r : Nat, nextSet b s = Int.ofNat r ∧ s ≤ r ∧ mem b r = true ∧ ∀ x, s ≤ x → x < r → mem b x = false :=
+  BS.nextSet_spec b s
+
+/-- **PreviousSet** (start positions beyond the capacity included) -/
+theorem previousSet_spec (b : T) (s : Nat) :
+    (previousSet b s = -1 ∧ ∀ x, x ≤ s → mem b x = false)
+    ∨ ∃ r : Nat, previousSet b s = Int.ofNat r ∧ r ≤ s ∧ mem b r = true ∧ ∀ x, r < x → x ≤ s → mem b x = false :=
+  BS.previousSet_spec b s
+
+/-- **FirstSet**: `-1` for the empty set, else the least member -/
+theorem firstSet_spec (b : T) :
+    (firstSet b = -1 ∧ ∀ x, mem b x = false)
+    ∨ ∃ r : Nat, firstSet b = Int.ofNat r ∧ mem b r = true ∧ ∀ x, x < r → mem b x = false :=
+  BS.firstSet_spec b
+
+/-- **LastSet**: `-1` for the empty set, else the greatest member -/
+theorem lastSet_spec (b : T) :
+    (lastSet b = -1 ∧ ∀ x, mem b x = false)
+    ∨ ∃ r : Nat, lastSet b = Int.ofNat r ∧ mem b r = true ∧ ∀ x, r < x → mem b x = false :=
+  BS.lastSet_spec b
+
+/-- **NextClear**: the least non-member at or after `start` (it always exists; beyond the capacity it is
+    `max(capacity, start)`, which is what the formula of the source returns) -/
+theorem nextClear_spec (b : T) (s : Nat) :
+    ∃ r : Nat, nextClear b s = Int.ofNat r ∧ s ≤ r ∧ mem b r = false ∧ ∀ x, s ≤ x → x < r → mem b x = true :=
+  BS.nextClear_spec b s
+
+/-- **PreviousClear**: `-1` when every index up to `start` is a member, else the greatest non-member `≤ start` -/
+theorem previousClear_spec (b : T) (s : Nat) :
+    (previousClear b s = -1 ∧ ∀ x, x ≤ s → mem b x = true)
+    ∨ ∃ r : Nat, previousClear b s = Int.ofNat r ∧ r ≤ s ∧ mem b r = false ∧ ∀ x, r < x → x ≤ s → mem b x = true :=
+  BS.previousClear_spec b s
+
+/-! ## Trim, Data, EnsureCapacity, Clone, Copy, Reset never change the set; Load -/
+
+/-- **Trim** keeps members and count, and leaves the minimum storage (empty or ending in a non-zero word) -/
+theorem trim_spec (b : T) :
+    (∀ x, mem (trim b) x = mem b x) ∧ count (trim b) = count b ∧ (Inv b → Inv (trim b))
+    ∧ ((trim b).data = [] ∨ getW (trim b).data ((trim b).data.length - 1) ≠ 0#64) :=
+  ⟨trim_bit b, trim_set b, trim_inv b, trim_minimal b⟩
+
+/-- **Data** returns the trimmed words — they denote exactly the members — and leaves the set unchanged -/
+theorem data_spec (b : T) :
+    (∀ x, bit (data b).2 x = mem b x) ∧ (∀ x, mem (data b).1 x = mem b x) ∧ count (data b).1 = count b
+    ∧ ((data b).2 = [] ∨ getW (data b).2 ((data b).2.length - 1) ≠ 0#64) :=
+  ⟨trim_bit b, trim_bit b, trim_set b, trim_minimal b⟩
+
+/-- **EnsureCapacity** keeps members and count and provides the capacity -/
+theorem ensureCapacity_spec (b : T) (n : Nat) :
+    (∀ x, mem (ensureCapacity b n) x = mem b x) ∧ count (ensureCapacity b n) = count b
+    ∧ n ≤ (ensureCapacity b n).data.length :=
+  ⟨ensure_bit b n, ensure_set b n, ensure_length b n⟩
+
+/-- **Clone** / **Copy** produce the same set with the same count -/
+theorem clone_copy_spec (b o : T) :
+    (∀ x, mem (clone b) x = mem b x) ∧ count (clone b) = count b
+    ∧ (∀ x, mem (copy b o) x = mem o x) ∧ count (copy b o) = count o :=
+  ⟨fun _ => rfl, rfl, fun _ => rfl, rfl⟩
+
+/-- **Reset** gives the empty set with count 0 -/
+theorem reset_spec (b : T) : (∀ x, mem (reset b) x = false) ∧ count (reset b) = 0 :=
+  ⟨reset_mem b, rfl⟩
+
+/-- **Load** installs exactly the members denoted by the words and recomputes the count (whatever was there before) -/
+theorem load_spec (b : T) (ws : List W) : (∀ x, mem (load b ws) x = bit ws x) ∧ Inv (load b ws) :=
+  ⟨load_bit b ws, load_inv b ws⟩
+
+/-- **Load(Data())** reproduces the set: same members, same count, equal in the sense of `Equal` -/
+theorem load_data (b c : T) (hb : Inv b) :
+    (∀ x, mem (load c (data b).2) x = mem b x) ∧ count (load c (data b).2) = count b
+    ∧ equal (load c (data b).2) b = true := by
+  have hm : ∀ x, mem (load c (data b).2) x = mem b x := fun x => by
+    unfold mem; rw [load_bit]; exact trim_bit b x
+  have hi := load_inv c (data b).2
+  refine ⟨hm, ?_, (BS.equal_iff _ _ hi hb).mpr hm⟩
+  unfold count; unfold BS.Inv at hi hb
+  rw [hi, hb, card_congr _ _ hm]
+
+/-! ## Equal -/
+
+/-- **Equal** is true exactly when the two bit sets contain the same indexes — capacities play no role
+    (for bit sets whose count is the cardinality, which every history guarantees) -/
+theorem equal_iff (a b : T) (ha : Inv a) (hb : Inv b) : equal a b = true ↔ ∀ x, mem a x = mem b x :=
+  BS.equal_iff a b ha hb
+
+/-- `Equal` as written, with no invariant assumed: same cached count and same members -/
+theorem equal_iff_raw (a b : T) : equal a b = true ↔ (a.set = b.set ∧ ∀ x, mem a x = mem b x) :=
+  BS.equal_iff_raw a b
+
+/-! non-vacuity: the invariant holds for the zero value and a concrete history; the hypothesis `SwarPopcount` holds
+    at sample words; `equal` sees through different capacities -/
+example : BS.Inv ({} : T) := rfl
+example : countSetBits 0xdeadbeef12345678#64 = Int.ofNat (popcount 0xdeadbeef12345678#64) := by decide
+example : countSetBits (BitVec.allOnes 64) = 64 := by decide
+example : equal (ensureCapacity (setBit {} 5) 8) (setBit {} 5) = true := by decide
+example : (run [.set .A 5, .copy .B .A, .ensure .B 8]).b.data.length = 8 := by decide
 
 end C08
